@@ -727,7 +727,7 @@ impl<'a> Constraint<'a> {
                 s += &format!("VALUE{} {};", qualifier.as_str(), operator.to_string()?);
             }
             Self::KeyVariable(varname, qualifier) => {
-                s += &format!("DATA{} ?{};", qualifier.as_str(), varname);
+                s += &format!("KEY{} ?{};", qualifier.as_str(), varname);
             }
             Self::KeyValueVariable(varname, operator, qualifier) => {
                 s += &format!(
